@@ -112,8 +112,10 @@ func (e *Engine) inferPure(fn *ssa.Function) bool {
 				if al, ok := root.(*ssa.Alloc); !ok || allocEscapes(al) {
 					res = false
 				}
-			case *ssa.MapUpdate, *ssa.Go, *ssa.Send, *ssa.Select, *ssa.Defer, *ssa.RunDefers, *ssa.MakeClosure:
+			case *ssa.MapUpdate, *ssa.Go, *ssa.Send, *ssa.Select, *ssa.MakeClosure:
 				res = false
+			case *ssa.RunDefers:
+				// the deferred calls themselves are judged where they are deferred
 			case *ssa.UnOp:
 				if x.Op.String() == "<-" {
 					res = false
